@@ -37,13 +37,38 @@ func C17(c *core.Ctx) error {
 	}
 	type cs struct {
 		expr, bname, tmpl, fmtr string
+		place                   string // "<level of mock-build-tags>/<level of boilerplate-file>", "" = both at top level
 	}
 	var cases []cs
 	for _, e := range exprs {
 		for _, b := range core.SortedKeys(boiler) {
 			for _, t := range []string{"testify", "matryer"} {
 				for _, f := range []string{"goimports", "gofmt", "noop"} {
-					cases = append(cases, cs{e, b, t, f})
+					cases = append(cases, cs{e, b, t, f, ""})
+				}
+			}
+		}
+	}
+	// the two settings written at different configuration levels (they travel in the template-data map, which is
+	// merged key by key across levels): each must still take effect
+	{
+		pe, pb := []string{"a && b"}, []string{"many lines"}
+		if !quick {
+			pe, pb = exprs[1:], []string{"many lines", "one line no newline"}
+		}
+		for _, e := range pe {
+			for _, b := range pb {
+				for _, t := range []string{"testify", "matryer"} {
+					// (the header is one per file and is rendered from the package's resolved template-data: interface-level
+					// placement is not meaningful for these two keys and is not exercised)
+					for _, lt := range []string{"top", "package"} {
+						for _, lb := range []string{"top", "package"} {
+							if lt == "top" && lb == "top" {
+								continue
+							}
+							cases = append(cases, cs{e, b, t, "gofmt", lt + "/" + lb})
+						}
+					}
 				}
 			}
 		}
@@ -57,17 +82,35 @@ func C17(c *core.Ctx) error {
 		}
 		x := cases[i]
 		id := fmt.Sprintf("expr=%q boilerplate=%s template=%s formatter=%s", x.expr, x.bname, x.tmpl, x.fmtr)
-		td := core.M{}
+		td, tdPkg, tdIface := core.M{}, core.M{}, core.M{}
+		tdTags, tdBoiler := td, td
+		if x.place != "" {
+			id += " levels(tags/boilerplate)=" + x.place
+			lv := strings.Split(x.place, "/")
+			at := map[string]core.M{"top": td, "package": tdPkg, "interface": tdIface}
+			tdTags, tdBoiler = at[lv[0]], at[lv[1]]
+			// an unrelated key at every level, so that every level has a map of its own to merge into
+			td["unroll-variadic"], tdPkg["unroll-variadic"], tdIface["unroll-variadic"] = true, true, true
+			if x.tmpl == "matryer" {
+				delete(td, "unroll-variadic")
+				delete(tdPkg, "unroll-variadic")
+				delete(tdIface, "unroll-variadic")
+				td["with-resets"], tdPkg["stub-impl"], tdIface["skip-ensure"] = true, true, true
+			}
+		}
 		files := map[string]string{"p/p.go": "package p\n\ntype I interface{ M(a int) (string, error) }\n"}
 		if x.bname != "absent" {
 			files["boiler.txt"] = boiler[x.bname]
-			td["boilerplate-file"] = "boiler.txt"
+			tdBoiler["boilerplate-file"] = "boiler.txt"
 		}
 		if x.expr != "" {
-			td["mock-build-tags"] = x.expr
+			tdTags["mock-build-tags"] = x.expr
 		}
 		cfg := core.M{"template": x.tmpl, "formatter": x.fmtr, "log-level": "error", "dir": "{{.InterfaceDir}}", "pkgname": "p", "filename": "mocks_gen.go", "template-data": td,
 			"packages": core.M{core.ModPath + "/p": core.M{"interfaces": core.M{"I": core.M{}}}}}
+		if x.place != "" {
+			cfg["packages"] = core.M{core.ModPath + "/p": core.M{"config": core.M{"template-data": tdPkg}, "interfaces": core.M{"I": core.M{"config": core.M{"template-data": tdIface}}}}}
+		}
 		files[".mockery.yml"] = core.YAML(cfg)
 		m, err := c.NewModule(fmt.Sprintf("c17-%d", i), files)
 		if err != nil {
@@ -215,7 +258,8 @@ func C17(c *core.Ctx) error {
 	c.Ev.Set("distinct_outcomes", len(outcomes))
 	c.Ev.Set("cases", len(cases))
 	c.Ev.Set("exhaustive", done == len(cases))
-	c.Ev.Set("rule", "full product build-constraint expression x boilerplate text x template x formatter, each generated by the real binary; (1) a generated-code marker line precedes every non-comment text and the package clause, (2) the boilerplate bytes appear verbatim before the package clause, (3) for every truth assignment of the expression's tags (GOOS switched for linux) `go list -tags` includes the file iff go/build/constraint evaluates the expression to true; distinct_nontrivial = cases with a constraint or a boilerplate")
+	c.Ev.Set("rule", "full product build-constraint expression x boilerplate text x template x formatter, plus the two settings written at every pair of levels {top, package} with an unrelated template-data key at each level, each generated by the real binary; (1) a generated-code marker line precedes every non-comment text and the package clause, (2) the boilerplate bytes appear verbatim before the package clause, (3) for every truth assignment of the expression's tags (GOOS switched for linux) `go list -tags` includes the file iff go/build/constraint evaluates the expression to true; distinct_nontrivial = cases with a constraint or a boilerplate")
 	c.Ev.Assume("release tags (go1.x) are always true; cgo disabled")
+	c.Ev.Assume("boilerplate-file and mock-build-tags describe the file header, which is rendered from the package's resolved template-data; writing them at interface level is not meaningful and not exercised")
 	return nil
 }
